@@ -1,5 +1,7 @@
 import BlugeProofs.C05.Seen
 import BlugeProofs.C05.Complete
+import BlugeProofs.C05.Facts
+import BlugeGen.C05
 /-! # C05 — concurrent batches are linearizable; readers see a prefix of that order
 
 Property theorems only (lemmas: `BlugeProofs/C05/*.lean`; model, specification and checker: `Bluge/Lin.lean`, on top of
@@ -11,6 +13,25 @@ time. `~` is `List.Perm`. Everything is proved for both batch modes at once (`sa
 the modes differ only in when `Return` is enabled, never before `IntroSegment`. -/
 namespace Bluge.C05
 open Bluge.Index Bluge.Lin List
+
+/-! ## Gen: the event alphabet is the code's
+
+`BlugeGen.C05` is rewritten from /repo's working tree by `go/extract/c05.go` on every run (`BlugeProofs/C05/Facts.lean`
+holds the expected tables, each classified fact annotated with the line of `Bluge/Lin.lean` it justifies). -/
+
+/-- the protocol facts the event alphabet of `Bluge.Lin` was transcribed from hold of /repo NOW: `prepareSegment` reads
+the root before it sends the introduction, sends unconditionally, returns only after the receive from `applied` (and from
+`persisted` iff the batch is safe); `introducerLoop` — started once, by `OpenWriter`, after the snapshots were loaded — is
+the only caller of `introduceSegment` / `introducePersist` / `introduceMerge`, runs exactly one of them per iteration of
+one `select`, each under a fresh epoch; the root field is written only in `replaceRoot`, in the same `rootLock.Lock`
+region as the append to `rootPersisted`; `currentSnapshot` (= `Writer.Reader`) reads and references the root under
+`rootLock.RLock`; the persister takes `rootPersisted` together with the root under `rootLock.Lock` and closes exactly
+what it took, after `persistSnapshot` -/
+theorem gen_protocol_matches_model : BlugeGen.C05.derived = expectedDerived := by rfl
+
+/-- the statement skeletons (order and nesting of every statement that is not statistics) of `prepareSegment`,
+`Writer.Reader`, `introducerLoop`, `replaceRoot`, `currentSnapshot`, `Writer.close` -/
+theorem gen_statements_match_model : BlugeGen.C05.stmts = expectedStmts := by rfl
 
 /-- **the root an introduction installs does not depend on which root `prepareSegment` saw**: in every reachable
 state, for every batch and segment id, whatever published root (`k`, `k'`: any, also out of range) the optimistic
